@@ -293,8 +293,40 @@ def linearisation_threading(S: Session):
                 yield (f"{name} threads the constraint state", bool(ok_chain and ok_out), detail, where, cfg)
 
 
+def fixed_grid_wiring_rules(chk, S):
+    """solve_fixed_grid hands the caller's initial value, grid and damping to the solver: with an opaque solver the calls themselves are visible."""
+    from ..harness import FIXED, events, mcalls
+
+    r = chk.rule("R-C02-7", "solve_fixed_grid wiring: init(t=grid[0], u=u, damp=damp); every step(state=carry, dt=diff(grid)[k], damp=damp); output from (state0, stacked steps, resumed last state)", floor=3)
+    it = S.interp()
+    solver = T.atom("fixed_grid_solver")
+    solver.meta["static_attrs"] = {"is_suitable_for_save_every_step": True}
+    try:
+        solve = it.call(it.function_value(FIXED + ".solve_fixed_grid"), [], {"solver": solver}, "<harness>")
+        out = it.call(solve, [A("u")], {"grid": A("grid"), "damp": A("damp")}, "<harness>")
+    except AnalysisError as e:
+        r.unknown("solve_fixed_grid", f"not analysed: {e}", FIXED)
+        return
+    S.absorb(it)
+    scans = events(it, "scan")
+    if len(scans) != 1:
+        r.unknown("solve_fixed_grid", f"{len(scans)} scans", FIXED)
+        return
+    sc = scans[0]
+    inits = mcalls([sc["init"]], "init", solver)
+    ok = len(inits) == 1 and sc["init"] is inits[0] and inits[0].kwargs.get("u") is A("u") and inits[0].kwargs.get("damp") is A("damp") and inits[0].kwargs.get("t") is T.mk("getitem", (A("grid"), 0))
+    r.require(ok, "solve_fixed_grid initial state", "solver.init(t=grid[0], u=u, damp=damp)", f"{[T.show(m, 3) for m in inits]}", sc["site"])
+    steps = mcalls([sc["new_carry"]], "step", solver)
+    ok = len(steps) == 1 and sc["new_carry"] is steps[0] and steps[0].kwargs.get("state") is sc["carry"] and steps[0].kwargs.get("dt") is sc["x"] and steps[0].kwargs.get("damp") is A("damp") and sc["xs"] is T.mk("np.diff", (A("grid"),))
+    r.require(ok, "solve_fixed_grid step", "solver.step(state=carry, dt=diff(grid)[k], damp=damp)", f"{[T.show(m, 3) for m in steps]}", sc["site"])
+    ufo = mcalls([out], "userfriendly_output", solver)
+    ok = len(ufo) == 1 and out is ufo[0] and ufo[0].kwargs.get("solution0") is sc["init"] and ufo[0].kwargs.get("solution") is sc["ys"]
+    r.require(ok, "solve_fixed_grid output", "userfriendly_output(solution0=state0, solution=stacked steps, ...)", f"{T.show(out, 3)}", FIXED)
+
+
 def run(chk, S: Session):
     _run_own(chk, S)
+    fixed_grid_wiring_rules(chk, S)
     from ..harness import borrow
 
     rb = chk.rule("R-C02-B", "clauses of this statement decided by rules of C04 (calibration bookkeeping of the initial-constraint update), C17 (documented Jacobian block structure), C11 (observation damping) and C03 (calibrated covariances of the filter output)", floor=4)
